@@ -376,6 +376,7 @@ const HOSTILE_STRINGS: &[&str] = &[
     ":", "::", "@", "@:", "!", "#", "$", "/", "//", "%", "%2", "%zz", "%00", "%ff", "'", "\"", ";", "=", ",", "mxc://",
     "mxc:///", "mxc://a/", "ed25519:", ":x", "https://matrix.to/#/", "matrix:", "m.room.message", "m.", "m.room.", "true", "null", "{}", "[]",
     "++50", "+5", "+", "-", "+ ", " +", " + ", "+\n", "-0", "+0", "00", "0x10", "1e3", "١٢٣", "ſ", "İ", "ß", "\u{fb01}",
+    "\u{e04}", "\u{928}", "\u{7ff}", "\u{800}", "\u{fff}", "\u{1000}", "\u{d7ff}", "\u{e000}", "\u{ffff}", "\u{10000}", "\u{10ffff}",
 ];
 
 /// Strings whose cost or index arithmetic depends on their size.
